@@ -94,9 +94,13 @@ impl File {
 
 /// Named C15 obligations (no precondition on the stream content may be used to
 /// discharge them): the two subtractions of `FormatStream::read_row_next_back`.
+/// (Proved lemmas `P ==> P`; the `ensures` only keeps the implicit overflow
+/// check of the same expression from being reported a second time.)
 pub proof fn c15_row_pos_minus_4(row_pos: u64)
     requires row_pos >= 4, /*@PL:no_underflow_row_len_pos*/
+    ensures row_pos >= 4,
 {}
 pub proof fn c15_row_start(row_pos: u64, row_len: u32)
     requires row_pos >= row_len as u64 + 8, /*@PL:no_underflow_row_start*/
+    ensures row_pos >= row_len as u64 + 8,
 {}
